@@ -62,8 +62,7 @@ def nf_equiv(a, b):
         return True
     if a[1] != b[1]:
         return False
-    x, y = float(M.p_value(a[0])), float(M.p_value(b[0]))
-    return abs(x - y) <= 1e-9 * max(abs(x), abs(y))
+    return M.p_close(a[0], b[0])
 
 
 def binary_prefixed(*nfs):
